@@ -33,8 +33,9 @@ PROP = {
             "floors": {"quick": {"cases": 2000, "ops": 40000, "admitted": 3000, "admitted_completing": 800, "cases_reached_succeeded": 500, "eval_model_projection": 40000,
                                  "eval_kv_sql_outcome": 40000, "eval_status_invariants": 40000,
                                  "nontrivial_cases": 500},
-                       "thorough": {"cases": 150000, "ops": 3000000, "admitted": 200000, "admitted_completing": 50000,
-                                    "cases_reached_succeeded": 30000, "nontrivial_cases": 40000}},
+                       "thorough": {"cases": 100000, "ops": 2200000, "admitted": 180000, "admitted_completing": 100000,
+                                    "cases_reached_succeeded": 30000, "eval_model_projection": 4000000,
+                                    "eval_status_invariants": 5000000, "nontrivial_cases": 55000}},
         },
         {
             "name": "dupid", "pkg": "payments/db", "pkgname": "paymentsdb", "test": "TestVerifC16DupID",
